@@ -1551,6 +1551,74 @@ def h_deserialize(entry):
     return h
 
 
+# ------------------------------------------------------------------------------ get_disjoint_mut (C13)
+def _request_eq(e):
+    """an answer to `request key == request key` (neither side is a stored key): -> truth, else None"""
+    if e[0] != 'assume':
+        return None
+    tag, truth = _norm_answer(e[1], e[2])
+    if not (isinstance(tag, tuple) and len(tag) == 3 and tag[0] == 'eq'):
+        return None
+    for side in tag[1:]:
+        if 'slot' in str(side) or 'stored' in str(side):
+            return None
+    return truth
+
+
+def precheck_iteration(props):
+    """the overlap pre-check of get_disjoint_mut: the scan continues only while the compared requests differ"""
+    def hook(E, body, key, st, seg):
+        answers = [a for a in (_request_eq(e) for e in seg) if a is not None]
+        if not answers:
+            return
+        it = Iteration(E, st, seg)
+        E.iter_classes['compared'] += 1
+        it_req(E, props, 'MUSTPASS', not any(answers), body.name + ':precheck',
+               'the pre-check may continue only when the two compared request keys were found different '
+               '(equal requests must panic)', it)
+    return hook
+
+
+def h_get_disjoint(ctx, p):
+    nm = ctx.body.name
+    acc = [i for i, e in enumerate(p.events) if e[0] in ('slice', 'at') and e[1] == p.mid]
+    ctx.req('OUT', not p.reads and not p.writes and not p.lens, nm, 'must not move, write or re-count any element', p)
+    if not acc:
+        ctx.classes['no-access'] += 1
+        return
+    ctx.classes['access'] += 1
+    before = p.events[:acc[0]]
+    ended = [e for e in before if (e[0] == 'next' and e[-1] == 'None') or e[0] == 'exhausted']
+    ctx.req('MUSTPASS', bool(ended), nm,
+            'the unchecked body may be entered only after the pairwise overlap pre-check ran to its end', p)
+    eq_true = [e for e in before if _request_eq(e) is True]
+    ctx.req('MUSTPASS', not eq_true, nm,
+            'no path on which two request keys compared equal may reach the unchecked body (it must panic)', p)
+
+
+# ------------------------------------------------------------------------------ thin delegations
+def h_delegate(ctx, p):
+    """the method forwards to the same-named method of its inner (core) iterator and returns the result:
+    exactly one call in the body, to that method, whose result is the return value"""
+    body = ctx.body
+    nm = body.name
+    ctx.classes['delegated'] += 1
+    calls = [(bi, t) for bi, t in body.calls()]
+    ok = len(calls) == 1
+    if ok:
+        bi, t = calls[0]
+        c = t['callee']
+        ok = c['name'] == nm and (c.get('trait') or '').endswith('Iterator') and not c.get('local_body')
+        # the receiver is (a reference to / a move of) a field of self
+        op = t['operands'][0] if t['operands'] else None
+        pl = (op.get('move') or op.get('copy')) if op else None
+        ok = ok and pl is not None
+        # the call result is what is returned
+        d = t['dest']
+        ok = ok and d['local'] == 0 and not d['proj']
+    ctx.req('ONCE', ok, nm, 'must forward to the same method of the wrapped iterator exactly once and return its result', p)
+
+
 def _pulled_next(e):
     return (e[0] == 'next' and e[-1] == 'Some') or (e[0] == 'user' and e[1].endswith('::Iterator::next')) \
         or (e[0] == 'opaque' and e[1].endswith('::Iterator>::next'))
@@ -1594,6 +1662,7 @@ ITER_HOOKS = {
     (SET, 'Serialize', 'serialize'): ({'C20'}, serialize_iteration('serialize_element', 1), {'entry'}),
     ('serialization::Vi', 'Visitor', 'visit_map'): ({'C20'}, lambda pr: bulk_iteration(pr, _pulled_access('next_entry'), _item_of_access), {'item', 'hit', 'append'}),
     ('set::serialization::Vi', 'Visitor', 'visit_seq'): ({'C20'}, lambda pr: bulk_iteration(pr, _pulled_access('next_element'), _item_of_access), {'item', 'hit', 'append'}),
+    (MAP, None, 'get_disjoint_mut'): ({'C13'}, precheck_iteration, {'compared'}),
     (SET, 'Extend', 'extend'): ({'C16', 'C07'}, lambda pr: bulk_iteration(pr, _pulled_cb, _item_of_cb), {'item', 'hit', 'append'}),
 }
 
@@ -1651,6 +1720,10 @@ HANDLERS.update({
 
 
 def required_classes(key):
+    if key[0] in (UNION, SYMDIFF) and key in HANDLERS:
+        return {'delegated'}
+    if key[0] in (DIFF, DIFFREF, INTER) and key[2] == 'size_hint':
+        return {'hint'}
     if key in INSERTIONS:
         return {'hit', 'append'} | ({'neither'} if INSERTIONS[key][6] is not None else set())
     if key in REMOVALS:
@@ -1677,6 +1750,8 @@ def required_classes(key):
         return {'made'}
     if key[2] == 'clear':
         return {'cleared'}
+    if key[2] == 'get_disjoint_mut':
+        return {'access', 'no-access'}
     if key[2] in ('serialize', 'visit_map', 'visit_seq') and key in HANDLERS:
         return {'done', 'error'}
     if key[2] == 'deserialize' and key in HANDLERS:
@@ -1690,12 +1765,31 @@ def required_classes(key):
     return set()
 
 
+ITER_TRAITS = ('Iterator', 'DoubleEndedIterator', 'ExactSizeIterator')
+OVERRIDE_PROPS = {
+    ITER: 'C09', ITERMUT: 'C09', KEYS: 'C09', VALUES: 'C09', VALUESMUT: 'C09', SETITER: 'C09',
+    INTOITER: 'C10', INTOKEYS: 'C10', INTOVALUES: 'C10', DRAIN: 'C10', SETINTOITER: 'C10', SETDRAIN: 'C10',
+    DIFF: 'C08', DIFFREF: 'C08', INTER: 'C08', UNION: 'C08', SYMDIFF: 'C08',
+}
+
+
+def unknown_override(body):
+    """an Iterator-family method of one of the crate's iterators for which no schema exists: -> property"""
+    k = root_key(body)
+    if k[1] in ITER_TRAITS and k[0] in OVERRIDE_PROPS and k not in HANDLERS and k not in ITER_HOOKS:
+        return OVERRIDE_PROPS[k[0]]
+    return None
+
+
 def props_of_root(body):
     k = root_key(body)
     h = HANDLERS.get(k)
     out = set(h[0]) if h else set()
     if k in ITER_HOOKS:
         out |= set(ITER_HOOKS[k][0])
+    u = unknown_override(body)
+    if u:
+        out.add(u)
     return out
 
 
@@ -1769,6 +1863,14 @@ HANDLERS.update({
     ('set::serialization::Vi', 'Visitor', 'visit_seq'): ({'C20'}, h_visit('next_element')),
     (MAP, 'Deserialize', 'deserialize'): ({'C20'}, h_deserialize('deserialize_map')),
     (SET, 'Deserialize', 'deserialize'): ({'C20'}, h_deserialize('deserialize_seq')),
+    (MAP, None, 'get_disjoint_mut'): ({'C13'}, h_get_disjoint),
+    (UNION, 'Iterator', 'next'): ({'C08'}, h_delegate),
+    (UNION, 'Iterator', 'size_hint'): ({'C08'}, h_delegate),
+    (UNION, 'Iterator', 'count'): ({'C08'}, h_delegate),
+    (UNION, 'Iterator', 'fold'): ({'C08'}, h_delegate),
+    (SYMDIFF, 'Iterator', 'next'): ({'C08'}, h_delegate),
+    (SYMDIFF, 'Iterator', 'size_hint'): ({'C08'}, h_delegate),
+    (SYMDIFF, 'Iterator', 'fold'): ({'C08'}, h_delegate),
     (MAP, None, 'clear'): ({'C01'}, h_clear),
     (SET, None, 'clear'): ({'C07'}, h_clear),
 })
@@ -1823,6 +1925,11 @@ def check_root(E, body, rr):
         if not rets:
             E.oblig('OUT', False, body.name, 'the root has no normal-return path at all', 'unproven',
                     props=sorted(ctx.props))
+    uo = unknown_override(body)
+    if uo:
+        E.oblig('OVERRIDE', False, body.name,
+                'this iterator overrides %s::%s, for which no schema exists: its agreement with the default '
+                '(next-based) behaviour is not established' % (key[1], key[2]), 'unproven', props=[uo])
     ih = ITER_HOOKS.get(key)
     if ih is not None:
         ic = getattr(E, 'iter_classes', {})
